@@ -15,6 +15,12 @@ type c05In struct {
 type c05Out struct {
 	In c05In `group:"gin" env-namespace:"IN" namespace:"in"`
 }
+type c05Cmd struct {
+	CS string `long:"cs" env:"ZCS" default:"D"`
+}
+type c05Rm struct {
+	RS string `long:"rs"`
+}
 type c05Decl struct {
 	S  string            `long:"s" env:"ZS"`
 	Sd string            `long:"sd" env:"ZSD" default:"D"`
@@ -25,11 +31,14 @@ type c05Decl struct {
 	P  *string           `long:"p" env:"ZP"`
 	G  c05G              `group:"g" env-namespace:"NS" namespace:"g"`
 	O  c05Out            `group:"gout" env-namespace:"OUT" namespace:"out"`
+	// an option of a command: it gets its defaults whether or not the command is selected
+	Add c05Cmd `command:"add"`
+	Rm  c05Rm  `command:"rm"`
 }
 
-var c05Keys = []string{"s", "sd", "l", "ld", "m", "md", "p", "g.n", "out.in.n2"}
-var c05Env = []string{"ZS", "ZSD", "ZL", "ZLD", "ZM", "ZMD", "ZP", "NS_N", "OUT_IN_N2"}
-var c05HasDef = []bool{false, true, false, true, false, true, false, true, true}
+var c05Keys = []string{"s", "sd", "l", "ld", "m", "md", "p", "g.n", "out.in.n2", "cs"}
+var c05Env = []string{"ZS", "ZSD", "ZL", "ZLD", "ZM", "ZMD", "ZP", "NS_N", "OUT_IN_N2", "ZCS"}
+var c05HasDef = []bool{false, true, false, true, false, true, false, true, true, true}
 
 func c05Kind(opt int) int { // 0 scalar, 1 slice, 2 map, 3 pointer
 	switch opt {
@@ -76,6 +85,9 @@ func c05Get(o *c05Decl, opt int) []string {
 	}
 	if opt == 8 {
 		return []string{o.O.In.N2}
+	}
+	if opt == 9 {
+		return []string{o.Add.CS}
 	}
 	return []string{o.G.N}
 }
@@ -141,6 +153,8 @@ func H_C05_rank(v *V) {
 			o.G.N = I
 		case 8:
 			o.O.In.N2 = I
+		case 9:
+			o.Add.CS = I
 		}
 		switch kind {
 		case 0, 3:
@@ -177,6 +191,15 @@ func H_C05_rank(v *V) {
 	if opt == 8 {
 		iniText = "[gin]\nN2 = " + N1 + "\n"
 	}
+	// the command option: no command, its own command or a sibling is selected
+	sel := 0
+	if opt == 9 {
+		iniText = "[add]\nCS = " + N1 + "\n"
+		sel = v.Choice(3)
+		if hasCli {
+			v.Assume(sel == 1)
+		}
+	}
 	if envState == 2 {
 		envText = ""
 		envV = []string{""}
@@ -186,6 +209,7 @@ func H_C05_rank(v *V) {
 	}
 	p := NewNamedParser("prog", None)
 	p.AddGroup("Application Options", "", o)
+	p.SubcommandsOptional = true
 	ip := NewIniParser(p)
 	ip.ParseAsDefaults = mode != 0
 	var err error
@@ -193,8 +217,13 @@ func H_C05_rank(v *V) {
 		err = ip.Parse(strings.NewReader(iniText))
 	}
 	var args []string
+	if sel == 1 {
+		args = append(args, "add")
+	} else if sel == 2 {
+		args = append(args, "rm")
+	}
 	if hasCli {
-		args = cliArgs
+		args = append(args, cliArgs...)
 	}
 	if err == nil {
 		_, err = p.ParseArgs(args)
